@@ -160,14 +160,36 @@ fn mutate(r: &mut Rng, b: &mut Vec<u8>) -> String {
     d.join(",")
 }
 
-/// Largest dictionary an XZ input could be taken to declare (lenient: every "0x21 0x01 prop").
+/// Lenient multibyte integer (non-minimal encodings accepted, as a tolerant reader might).
+fn lenient_vli(b: &[u8], mut i: usize) -> Option<(u64, usize)> {
+    let mut v = 0u64;
+    for k in 0..9 {
+        let x = *b.get(i)?;
+        i += 1;
+        v |= ((x & 0x7F) as u64) << (7 * k);
+        if x & 0x80 == 0 {
+            return Some((v, i));
+        }
+    }
+    None
+}
+
+/// Largest dictionary an XZ input could be taken to declare (lenient: at every offset, a filter
+/// id 0x21 followed by a properties size of 1 in any multibyte encoding, then the property byte).
 fn xz_declared(b: &[u8]) -> u64 {
     let mut m = 0u64;
-    for i in 0..b.len().saturating_sub(2) {
-        if b[i] == 0x21 && b[i + 1] == 0x01 {
-            let p = b[i + 2];
+    for i in 0..b.len() {
+        let Some((id, j)) = lenient_vli(b, i) else { continue };
+        if id != 0x21 {
+            continue;
+        }
+        let Some((ps, k)) = lenient_vli(b, j) else { continue };
+        if ps != 1 {
+            continue;
+        }
+        if let Some(&p) = b.get(k) {
             if p <= 40 {
-                let d = if p == 40 { 0xFFFF_FFFFu64 } else { ((2 | (p as u64 & 1)) << (p / 2 + 11)) as u64 };
+                let d = if p == 40 { 0xFFFF_FFFFu64 } else { (2 | (p as u64 & 1)) << (p / 2 + 11) };
                 m = m.max(d);
             }
         }
